@@ -238,7 +238,7 @@ OUT = ["each-way dead heats and multi-winner dead heats (flumine logs them as un
 from .c18 import h18c as _h18c  # noqa: E402
 
 HARNESSES = [
-    Harness("H08e", _h18c, quick=dict(N=3, focus="C08"), thorough=dict(N=4, focus="C08"), pattern="P3 bounded history (schedule symbolic)", requires=["cleared", "replaced"], selfcheck=False, outside=OUT),
+    Harness("H08e", _h18c, quick=dict(N=3, focus="C08"), thorough=dict(N=5, focus="C08"), pattern="P3 bounded history (schedule symbolic)", requires=["cleared", "replaced"], selfcheck=False, outside=OUT),
     Harness("H08a-S", h08a, quick=dict(mode="S"), pattern="P1 kernel-with-oracle", requires=["settled", "line-tie", "dead-heat", "each-way", "unmatched"], outside=OUT),
     Harness("H08a-P", h08a, quick=dict(mode="P"), pattern="P1 kernel-with-oracle", requires=["settled", "dead-heat", "each-way"], outside=OUT),
     Harness("H08c", h08c, pattern="P1 kernel-with-oracle", requires=["assigned"], outside=OUT),
